@@ -109,21 +109,23 @@ func stressMain(args []string) {
 				}
 			}()
 		}
-		wg.Add(1)
-		go func() { // reloader alternating configs (ttl, observer type, buckets, rules)
-			defer wg.Done()
-			i := 0
-			for {
-				select {
-				case <-stop:
-					return
-				default:
+		for g := 0; g < 2; g++ { // reloaders (the SIGHUP goroutine and a POST /-/reload handler can overlap) alternating configs (ttl, observer type, buckets, rules)
+			wg.Add(1)
+			go func(g int) {
+				defer wg.Done()
+				i := g
+				for {
+					select {
+					case <-stop:
+						return
+					default:
+					}
+					i++
+					m.InitFromYAMLString(cfgs[i%len(cfgs)])
+					time.Sleep(time.Duration(300+g*170) * time.Microsecond)
 				}
-				i++
-				m.InitFromYAMLString(cfgs[i%len(cfgs)])
-				time.Sleep(500 * time.Microsecond)
-			}
-		}()
+			}(g)
+		}
 		time.Sleep(dur / 3)
 		close(stop)
 		wg.Wait()
